@@ -12,8 +12,9 @@ ASSUMPTIONS = ["lstat size/nlink/mtime as ground truth", "string order = code-po
 
 def generators(tier, seed):
     if tier == "quick":
-        return [dict(module="MC_C05", cfg="MC_C05_q", workers=4)]
-    return [dict(module="MC_C05", cfg="MC_C05_t", workers=8)]
+        return [dict(module="MC_C05", cfg="MC_C05_q", workers=4), dict(module="MC_C05", cfg="MC_C05_r", workers=4, limit=3000)]
+    # (pseudo-random trees of WorldRnd next to the fixed world)
+    return [dict(module="MC_C05", cfg="MC_C05_t", workers=8), dict(module="MC_C05", cfg="MC_C05_rt", workers=8)]
 
 MANIFEST = dict(
     design_ref='DESIGN.md §5 C05',
